@@ -2,6 +2,9 @@
 #include <oneapi/tbb/spin_mutex.h>
 #include <oneapi/tbb/spin_rw_mutex.h>
 #include <oneapi/tbb/queuing_mutex.h>
+#include <oneapi/tbb/queuing_rw_mutex.h>
+#include <oneapi/tbb/mutex.h>
+#include <oneapi/tbb/rw_mutex.h>
 #include <atomic>
 #include <thread>
 #include <chrono>
@@ -40,30 +43,152 @@ template <class M> static bool stress_excl(int nthreads, int iters) {
     for (auto& t : ts) t.join();
     return viol != 0;
 }
-static bool rw_stress(int nthreads, int iters) {
-    tbb::spin_rw_mutex m; std::vector<std::thread> ts; std::atomic<int> bad{0};
+template <class RW> static bool rw_stress(int nthreads, int iters) {
+    RW m; std::vector<std::thread> ts; std::atomic<int> bad{0};
     for (int t = 0; t < nthreads; ++t) ts.emplace_back([&, t] {
         for (int i = 0; i < iters; ++i) {
             int k = (i * 7 + t) % 5;
-            if (k == 0) { tbb::spin_rw_mutex::scoped_lock l(m, true); if (writers.fetch_add(1) != 0 || readers != 0) ++bad; writers.fetch_sub(1); }
-            else if (k == 1) { tbb::spin_rw_mutex::scoped_lock l(m, false); readers.fetch_add(1); if (writers != 0) ++bad; readers.fetch_sub(1); }
-            else if (k == 2) { tbb::spin_rw_mutex::scoped_lock l(m, false); readers.fetch_add(1); if (writers != 0) ++bad; readers.fetch_sub(1); l.upgrade_to_writer(); if (writers.fetch_add(1) != 0 || readers != 0) ++bad; writers.fetch_sub(1); }
-            else if (k == 3) { tbb::spin_rw_mutex::scoped_lock l(m, true); if (writers.fetch_add(1) != 0 || readers != 0) ++bad; writers.fetch_sub(1); readers.fetch_add(1); l.downgrade_to_reader(); if (writers != 0) ++bad; readers.fetch_sub(1); }
-            else { tbb::spin_rw_mutex::scoped_lock l; if (l.try_acquire(m, i & 1)) { if (i & 1) { if (writers.fetch_add(1) != 0 || readers != 0) ++bad; writers.fetch_sub(1); } else { readers.fetch_add(1); if (writers != 0) ++bad; readers.fetch_sub(1); } } }
+            if (k == 0) { typename RW::scoped_lock l(m, true); if (writers.fetch_add(1) != 0 || readers != 0) ++bad; writers.fetch_sub(1); }
+            else if (k == 1) { typename RW::scoped_lock l(m, false); readers.fetch_add(1); if (writers != 0) ++bad; readers.fetch_sub(1); }
+            else if (k == 2) { typename RW::scoped_lock l(m, false); readers.fetch_add(1); if (writers != 0) ++bad; readers.fetch_sub(1); l.upgrade_to_writer(); if (writers.fetch_add(1) != 0 || readers != 0) ++bad; writers.fetch_sub(1); }
+            else if (k == 3) { typename RW::scoped_lock l(m, true); if (writers.fetch_add(1) != 0 || readers != 0) ++bad; writers.fetch_sub(1); readers.fetch_add(1); l.downgrade_to_reader(); if (writers != 0) ++bad; readers.fetch_sub(1); }
+            else { typename RW::scoped_lock l; if (l.try_acquire(m, i & 1)) { if (i & 1) { if (writers.fetch_add(1) != 0 || readers != 0) ++bad; writers.fetch_sub(1); } else { readers.fetch_add(1); if (writers != 0) ++bad; readers.fetch_sub(1); } } }
         }
     });
     for (auto& t : ts) t.join();
     return bad != 0;
+}
+
+// ---------------------------------------------------------------------------------------------------------------------
+// queuing_rw_mutex, writer release with a successor in UPGRADE_LOSER (finding: lost hand-off).
+// Three readers A, X, B queue in this order; A and B upgrade (A wins, B is UPGRADE_WAITING), A downgrades (B becomes UPGRADE_LOSER), upgrades again and releases as
+// writer.  release() then takes the branch for "waiting" successors: it resets B's my_prev by a plain store, without its internal lock and without the flag handshake.
+// If B is inside a pass of its `waiting:` loop (my_prev flagged, about to take A's internal lock) the reset is overwritten by B's own `my_prev = predecessor` and B
+// spins for ever on a predecessor that has left.  To put B there without touching the library, B runs in a second process that shares the mutex and the three
+// nodes; in that process A's node lies in a page that is PROT_NONE, every access of B to it faults, the handler waits for a permit, lets exactly that one access
+// through (single step) and protects the page again.  The parent hands out a permit only while a call of A is blocked (A waits for B in the flag handshake).
+// ---------------------------------------------------------------------------------------------------------------------
+#include <new>
+#include <cstring>
+#include <csignal>
+#include <ucontext.h>
+#include <sys/mman.h>
+#include <sys/wait.h>
+#include <unistd.h>
+namespace qrwloser {
+
+typedef tbb::queuing_rw_mutex::scoped_lock node_t;
+struct ctl_t { std::atomic<int> permits, faults, b_stage, b_result, a_busy; };
+static char* shm; static const size_t PG = 4096;
+static ctl_t* ctl; static tbb::queuing_rw_mutex* mtx; static node_t *nA, *nX, *nB;
+static void on_segv(int, siginfo_t* si, void* uc_) {
+    ucontext_t* uc = (ucontext_t*)uc_;
+    char* a = (char*)si->si_addr;
+    if (a < shm + PG || a >= shm + 2 * PG) { const char m[] = "unexpected SIGSEGV\n"; write(2, m, sizeof m - 1); _exit(3); }
+    ctl->faults.fetch_add(1);
+    for (;;) { int p = ctl->permits.load(); if (p > 0 && ctl->permits.compare_exchange_strong(p, p - 1)) break; struct timespec ts = {0, 200000}; nanosleep(&ts, nullptr); }
+    mprotect(shm + PG, PG, PROT_READ | PROT_WRITE);
+    uc->uc_mcontext.gregs[REG_EFL] |= 0x100;          // single-step: re-protect right after this one access
+}
+static void on_trap(int, siginfo_t*, void* uc_) {
+    ucontext_t* uc = (ucontext_t*)uc_;
+    uc->uc_mcontext.gregs[REG_EFL] &= ~0x100L;
+    mprotect(shm + PG, PG, PROT_NONE);
+}
+static int child_B() {
+    struct sigaction sa; memset(&sa, 0, sizeof sa); sa.sa_flags = SA_SIGINFO; sa.sa_sigaction = on_segv; sigaction(SIGSEGV, &sa, nullptr);
+    sa.sa_sigaction = on_trap; sigaction(SIGTRAP, &sa, nullptr);
+    mprotect(shm + PG, PG, PROT_NONE);               // in THIS process only: every access of B to A's node stalls until permitted
+    nB->acquire(*mtx, false);
+    ctl->b_stage = 1;
+    while (ctl->b_stage != 2) { struct timespec ts = {0, 200000}; nanosleep(&ts, nullptr); }
+    bool r = nB->upgrade_to_writer();                // must eventually return (every blocked acquirer gets the lock once holders release)
+    ctl->b_result = r ? 1 : 0; ctl->b_stage = 3;
+    nB->release();
+    ctl->b_stage = 4;
+    return 0;
+}
+// run one call of A in a thread; while it is blocked, let B make one more access to A's node every 20 ms
+template <class F> static bool run_A(F f, const char* what, int max_ms = 3000) {
+    std::atomic<bool> done{false};
+    std::thread t([&] { f(); done = true; });
+    int waited = 0;
+    while (!done && waited < max_ms) { std::this_thread::sleep_for(20ms); waited += 20; if (!done) ctl->permits.fetch_add(1); }
+    if (!done) { std::printf("A blocked in %s\n", what); t.detach(); return false; }
+    t.join(); return true;
+}
+
+static int run() {
+    shm = (char*)mmap(nullptr, 4 * PG, PROT_READ | PROT_WRITE, MAP_SHARED | MAP_ANONYMOUS, -1, 0);
+    ctl = new (shm) ctl_t(); mtx = new (shm + 256) tbb::queuing_rw_mutex();
+    nA = new (shm + PG) node_t(); nX = new (shm + 2 * PG) node_t(); nB = new (shm + 3 * PG) node_t();
+    nA->acquire(*mtx, false); nX->acquire(*mtx, false);
+    pid_t pid = fork();
+    if (pid == 0) _exit(child_B());
+    while (ctl->b_stage != 1) std::this_thread::sleep_for(1ms);
+    // A starts to upgrade (waits for X, an active reader between A and B)
+    std::atomic<bool> a1{false}; bool r1 = false;
+    std::thread ta([&] { r1 = nA->upgrade_to_writer(); a1 = true; });
+    std::this_thread::sleep_for(50ms);
+    ctl->b_stage = 2;                                 // B upgrades too: UPGRADE_WAITING behind X
+    std::this_thread::sleep_for(50ms);
+    nX->release();                                    // X steps out: B's my_prev now names A, B starts a new pass on A (stalls at its first access to A's node)
+    int w = 0; while (!a1 && w < 3000) { std::this_thread::sleep_for(20ms); w += 20; if (!a1) ctl->permits.fetch_add(1); }
+    if (!a1) { std::printf("A blocked in upgrade#1\n"); kill(pid, SIGKILL); _exit(2); }
+    ta.join();
+    bool ok = run_A([&] { nA->downgrade_to_reader(); }, "downgrade");          // marks B UPGRADE_LOSER
+    bool r2 = false;
+    ok = ok && run_A([&] { r2 = nA->upgrade_to_writer(); }, "upgrade#2");       // B answers the flag handshake, starts another pass, stalls before taking A's internal lock
+    ok = ok && run_A([&] { nA->release(); }, "release");                        // writer release with successor in UPGRADE_LOSER: plain store of B's my_prev
+    if (!ok) { kill(pid, SIGKILL); return 2; }
+    ctl->permits = 1 << 30;                           // B runs freely from here
+    w = 0; while (ctl->b_stage < 3 && w < 3000) { std::this_thread::sleep_for(20ms); w += 20; }
+    std::printf("A: upgrade#1=%d upgrade#2=%d released; B faults=%d stage=%d\n", (int)r1, (int)r2, ctl->faults.load(), ctl->b_stage.load());
+    if (ctl->b_stage < 3) {
+        std::printf("HANG: B never returns from upgrade_to_writer although A and X have released: q_tail=%s B.my_prev=%s (A's node, already released: A.my_mutex=%p)\n",
+                    *(void**)mtx == (void*)nB ? "B" : "?", ((void**)nB)[1] == (void*)nA ? "A" : "?", ((void**)nA)[0]);
+        kill(pid, SIGKILL); waitpid(pid, nullptr, 0); return 1;
+    }
+    while (ctl->b_stage != 4) std::this_thread::sleep_for(1ms);
+    waitpid(pid, nullptr, 0);
+    std::printf("no hang: B upgrade -> %d\n", ctl->b_result.load());
+    return 0;
+}
+}  // namespace qrwloser
+
+// run a stress recipe in a child process: a hang (lost hand-off / lost wake-up) is a finding too
+template <class F> static int watched(F f, int seconds) {
+    std::fflush(stdout);
+    pid_t pid = fork();
+    if (pid == 0) { bool bad = f(); _exit(bad ? 1 : 0); }
+    for (int i = 0; i < seconds * 50; ++i) { int st = 0; if (waitpid(pid, &st, WNOHANG) == pid) return WIFEXITED(st) ? WEXITSTATUS(st) : 3; std::this_thread::sleep_for(20ms); }
+    kill(pid, SIGKILL); waitpid(pid, nullptr, 0); return 2;
 }
 int main(int argc, char** argv) {
     std::string job = argc > 1 ? argv[1] : "";
     if (job.rfind("qm", 0) == 0) {
         if (qm_reuse()) { std::printf("REPRODUCED class=queuing_mutex-exclusion a scoped_lock that was granted the lock by hand-off, released, and is used again while another thread holds the queuing_mutex enters the critical section at once: 2 simultaneous holders\n"); return 0; }
         if (stress_excl<tbb::queuing_mutex>(8, 20000)) { std::printf("REPRODUCED class=queuing_mutex-exclusion two holders under 8-thread stress\n"); return 0; }
+    } else if (job.rfind("qrw.release.writer.loser", 0) == 0 || job.rfind("qrw.upgrade.loser_successor", 0) == 0) {
+        std::fflush(stdout);
+        int rc = qrwloser::run();
+        if (rc == 1) { std::printf("REPRODUCED class=qrw-loser-successor-lost-handoff readers A,X,B; A and B upgrade (A wins), A downgrades (B marked UPGRADE_LOSER), A upgrades again and releases as writer: release() resets B's my_prev by a plain store (branch for waiting successors), B - inside a pass of its waiting loop - overwrites the reset and never returns from upgrade_to_writer; the mutex stays locked for ever\n"); return 0; }
+    } else if (job.rfind("qrw", 0) == 0) {
+        int rc = watched([] { return rw_stress<tbb::queuing_rw_mutex>(6, 20000); }, 40);
+        if (rc == 1) { std::printf("REPRODUCED class=queuing_rw_mutex-rules writer overlapped another writer or a reader under 6-thread stress (lock/upgrade/downgrade/try mix)\n"); return 0; }
+        if (rc >= 2) { std::printf("REPRODUCED class=queuing_rw_mutex-hang the 6-thread stress mix (lock/upgrade/downgrade/try) does not finish: a request never gets the lock (rc=%d)\n", rc); return 0; }
+    } else if (job.rfind("mx", 0) == 0) {
+        int rc = watched([] { return stress_excl<tbb::mutex>(8, 30000); }, 40);
+        if (rc == 1) { std::printf("REPRODUCED class=mutex-exclusion two holders of tbb::mutex under 8-thread stress\n"); return 0; }
+        if (rc >= 2) { std::printf("REPRODUCED class=mutex-hang 8 threads on one tbb::mutex do not finish: a sleeping locker is never woken (rc=%d)\n", rc); return 0; }
+    } else if (job.rfind("rwm", 0) == 0) {
+        int rc = watched([] { return rw_stress<tbb::rw_mutex>(8, 30000); }, 40);
+        if (rc == 1) { std::printf("REPRODUCED class=rw_mutex-rules writer overlapped another writer or a reader under 8-thread stress\n"); return 0; }
+        if (rc >= 2) { std::printf("REPRODUCED class=rw_mutex-hang 8 threads on one tbb::rw_mutex do not finish: a sleeping locker is never woken (rc=%d)\n", rc); return 0; }
     } else if (job.rfind("sm", 0) == 0) {
         if (stress_excl<tbb::spin_mutex>(8, 50000)) { std::printf("REPRODUCED class=spin_mutex-exclusion two holders under 8-thread stress\n"); return 0; }
     } else if (job.rfind("srw", 0) == 0) {
-        if (rw_stress(8, 50000)) { std::printf("REPRODUCED class=spin_rw_mutex-rules writer overlapped another writer or a reader under 8-thread stress (lock/upgrade/downgrade/try mix)\n"); return 0; }
+        if (rw_stress<tbb::spin_rw_mutex>(8, 50000)) { std::printf("REPRODUCED class=spin_rw_mutex-rules writer overlapped another writer or a reader under 8-thread stress (lock/upgrade/downgrade/try mix)\n"); return 0; }
     }
     std::printf("NOT-REPRODUCED\n"); return 0;
 }
